@@ -153,7 +153,7 @@ func (w *wrapAnalysis) attribute(st *pstate, ins ssa.Instruction) {
 	}
 	for _, a := range accs {
 		k := accOut{a.Kind, a.Loc}
-		if _, ok := sec.Acc[k]; !ok {
+		if old, ok := sec.Acc[k]; !ok || a.Site < old {
 			sec.Acc[k] = a.Site
 		}
 	}
@@ -323,7 +323,7 @@ func (A *Analyzer) analyzeWrapper(fn *ssa.Function, name string, isGo bool) (*Wr
 			}
 			for i, s := range p.secs {
 				for k, v := range s.Acc {
-					if _, ok := wr.Sections[i].Acc[k]; !ok {
+					if old, ok := wr.Sections[i].Acc[k]; !ok || v < old {
 						wr.Sections[i].Acc[k] = v
 					}
 				}
